@@ -514,8 +514,16 @@ Proof.
   intros Hi HL Hwf Hc. pose proof (a_n _ _ _ Hi) as Hn. pose proof HL as [HP HF].
   destruct o; simpl in Hwf, Hc;
     try (eapply step2_question; eauto; fail);
-    try (destruct Hwf; eapply step2_rr; eauto; fail);
-    try (destruct Hwf; eapply step2_rrset; eauto; fail);
+    try (match type of Hc with (_ = Standard -> _) => idtac end;
+         destruct Hwf as [W1 W2]; destruct (w_mode (d_w d)) eqn:Em;
+         [eapply step2_rr; eauto
+         |unfold step_ok2; rewrite step_rr_nonstd by congruence; exact (step2_rr d g y A L _ HsNone _ _ _ _ _ _ Hi HL W1 W2 I)
+         |unfold step_ok2; rewrite step_rr_nonstd by congruence; exact (step2_rr d g y A L _ HsNone _ _ _ _ _ _ Hi HL W1 W2 I)]; fail);
+    try (match type of Hc with (_ = Standard -> _) => idtac end;
+         destruct Hwf as [W1 W2]; destruct (w_mode (d_w d)) eqn:Em;
+         [eapply step2_rrset; eauto
+         |unfold step_ok2; rewrite step_rrset_nonstd by congruence; exact (step2_rrset d g y A L _ HsNone _ _ _ _ _ _ Hi HL W1 W2 I)
+         |unfold step_ok2; rewrite step_rrset_nonstd by congruence; exact (step2_rrset d g y A L _ HsNone _ _ _ _ _ _ Hi HL W1 W2 I)]; fail);
     unfold step_ok2; cbn [step].
   - destruct (hdr_write_ok2 d g y A L (N.to_nat ID_START) (be16 v) Hi HL ltac:(cbv; lia)) as [w' [E [H [H' _]]]].
     unfold set_id. rewrite E. simpl. eauto.
